@@ -388,7 +388,7 @@ static void check_int_fn(const char* name, const std::string& s, const std::stri
 
 static void ints_for(const std::string& s) {
     using namespace osmium;
-    check_int_fn("string_to_object_id", s, "-9223372036854775807", "9223372036854775806", false, [](const std::string& x) { return string_to_object_id(x.c_str()); });
+    check_int_fn("string_to_object_id", s, "-9223372036854775807", "9223372036854775807", false, [](const std::string& x) { return string_to_object_id(x.c_str()); });
     if (s != "-1") {   // "-1" is the documented 'anonymous' special value of the ulong family
         check_int_fn("string_to_object_version", s, "0", "4294967295", true, [](const std::string& x) { return string_to_object_version(x.c_str()); });
         check_int_fn("string_to_changeset_id", s, "0", "4294967295", true, [](const std::string& x) { return string_to_changeset_id(x.c_str()); });
